@@ -41,15 +41,25 @@ def c20_argv(tier, seed, shard, out):
             "--out", out, "--replays", os.path.join(root, "harness", "replays"), "--known", os.path.join(root, "known_findings.txt")]
 
 
-def fuzz(target, prop, runs, shards=8):
+def fuzz(target, prop, runs, shards=8, sub=None):
+    """A libFuzzer campaign as a thorough-tier step. With `sub`, the target is `oracle` and the semantic
+    oracle of the named L1/L2 check runs on libFuzzer's bytes (vchecks::fuzz)."""
     import os
     root = os.path.dirname(os.path.dirname(os.path.abspath(__file__)))
 
     def argv(tier, seed, shard, out):
-        return ["python3", os.path.join(root, "lib", "fuzz_step.py"), "--target", target, "--prop", prop, "--runs", str(runs), "--seed", str(seed),
-                "--shard", str(shard), "--out", out, "--replays", os.path.join(root, "harness", "replays")]
-    return {"argv": argv, "sub": "fuzz-" + target, "step": "fuzz-" + target, "cases": {"quick": 0, "thorough": runs},
+        a = ["python3", os.path.join(root, "lib", "fuzz_step.py"), "--target", target, "--prop", prop, "--runs", str(runs), "--seed", str(seed),
+             "--shard", str(shard), "--out", out, "--replays", os.path.join(root, "harness", "replays")]
+        if sub:
+            a += ["--sub", sub]
+        return a
+    name = "fuzz-" + (sub or target)
+    return {"argv": argv, "sub": name, "step": name, "cases": {"quick": 0, "thorough": runs},
             "shards": {"quick": 1, "thorough": shards}, "only_tier": "thorough"}
+
+
+def fz(prop, sub, runs=400000, shards=4):
+    return fuzz("oracle", prop, runs, shards=shards, sub=sub)
 
 
 CHECKS = {
@@ -72,12 +82,13 @@ CHECKS = {
     "C03": {
         "packages": ["vchecks", "vgen"],
         "steps": [vc("c03a", "api", 30000, 8000000), vc("c03-maps", "maps", 20000, 4000000), vc("c03s", "builtins", 40000, 8000000, produces=["seqs", "hooks"]), l3("c03b", "l3", 90000, 24000000),
-                  l3("c03-enums", "enums", 1, 1), l3("c03-body", "body", 30000, 6400000, gen=GEN_MAGIC)],
+                  l3("c03-enums", "enums", 1, 1), l3("c03-body", "body", 30000, 6400000, gen=GEN_MAGIC),
+                  fz("C03", "c03-api"), fz("C03", "c03-maps"), fz("C03", "c03-seqs"), fz("C03", "c03-hooks")],
         "assumptions": L1_ASSUME,
     },
     "C04": {
         "packages": ["vchecks"],
-        "steps": [vc("c04", "trees", 50000, 16000000)],
+        "steps": [vc("c04", "trees", 50000, 16000000), fz("C04", "c04", 500000, 8)],
         "assumptions": L1_ASSUME,
     },
     "C06": {
@@ -87,37 +98,38 @@ CHECKS = {
     },
     "C10": {
         "packages": ["vchecks"],
-        "steps": [vc("c10", "random", 60000, 16000000, produces=["random", "exhaustive"])],
+        "steps": [vc("c10", "random", 60000, 16000000, produces=["random", "exhaustive"]), fz("C10", "c10", 400000, 8)],
         "assumptions": L1_ASSUME + ["the rule table (harness/vchecks/src/c10.rs, DESIGN.md Appendix C) is the reading of the property statement; options the statement does not define (bound, word = false, valued from_ident, attributes on pass-through magic fields, n-tuples under element-level derives) are not generated"],
     },
     "C19": {
         "packages": ["vchecks"],
-        "steps": [vc("c19", "usage", 40000, 8000000, produces=["usage", "bounds"])],
+        "steps": [vc("c19", "usage", 40000, 8000000, produces=["usage", "bounds"]), fz("C19", "c19a"), fz("C19", "c19b", 150000, 8)],
         "assumptions": L1_ASSUME + ["the expected answer is known by construction (the generator labels every planted occurrence); binder lifetimes are drawn from a pool that is never queried"],
     },
     "C11": {
         "packages": ["vchecks"],
-        "steps": [vc("c11", "ints", 40000, 8000000, produces=["ints-exhaustive", "ints-random", "misc"])],
+        "steps": [vc("c11", "ints", 40000, 8000000, produces=["ints-exhaustive", "ints-random", "misc"]), fz("C11", "c11-ints", 1000000), fz("C11", "c11-misc", 1000000)],
         "assumptions": L1_ASSUME + ["std's FromStr for the integer/float types is the reference; the harness's own arbitrary-precision radix conversion gives the decimal digits of unquoted literals"],
     },
     "C14": {
         "packages": ["vchecks"],
-        "steps": [vc("c14", "maps", 30000, 8000000)],
+        "steps": [vc("c14", "maps", 30000, 8000000), fz("C14", "c14", 300000, 8)],
         "assumptions": L1_ASSUME + ["the element types' own from_meta is the reference for entry values (differential)"],
     },
     "C13": {
         "packages": ["vchecks"],
-        "steps": [vc("c13", "fragments", 20000, 3200000, produces=["fragments", "lits", "numeric", "meta-pathlist"])],
+        "steps": [vc("c13", "fragments", 20000, 3200000, produces=["fragments", "lits", "numeric", "meta-pathlist"]),
+                  fz("C13", "c13-fragments", 60000, 8), fz("C13", "c13-lits"), fz("C13", "c13-numeric"), fz("C13", "c13-meta")],
         "assumptions": L1_ASSUME + ["syn parsing the fragment directly as the target type is the reference (differential); token comparison ignores punct spacing and invisible groups"],
     },
     "C15": {
         "packages": ["vchecks"],
-        "steps": [vc("c15", "lists", 40000, 8000000, produces=["lists", "routing"]), fuzz("meta_list", "C15", 10000000)],
+        "steps": [vc("c15", "lists", 40000, 8000000, produces=["lists", "routing"]), fuzz("meta_list", "C15", 10000000), fz("C15", "c15", 1000000)],
         "assumptions": L1_ASSUME + ["the documented default chain (from_meta -> from_word/from_list/from_expr -> from_value -> from_bool/from_string/from_char) is read off the FromMeta trait docs"],
     },
     "C12": {
         "packages": ["vchecks"],
-        "steps": [vc("c12", "wrappers", 1500, 256000)],
+        "steps": [vc("c12", "wrappers", 1500, 256000), fz("C12", "c12", 8000, 8)],
         "assumptions": L1_ASSUME + ["the wrapped type's own from_meta on the same item is the reference (differential)"],
     },
     "C18": {
@@ -146,7 +158,7 @@ CHECKS = {
     },
     "C16": {
         "packages": ["vchecks", "vgen"],
-        "steps": [l3("c16", "magic", 40000, 12800000, gen=GEN_MAGIC), vc("c16t", "fields-print", 20000, 4000000)],
+        "steps": [l3("c16", "magic", 40000, 12800000, gen=GEN_MAGIC), vc("c16t", "fields-print", 20000, 4000000), fz("C16", "c16t")],
         "assumptions": L3_ASSUME,
     },
     "C17": {
@@ -157,7 +169,7 @@ CHECKS = {
     },
     "C05": {
         "packages": ["vchecks"],
-        "steps": [vc("c05", "histories", 40000, 16000000)],
+        "steps": [vc("c05", "histories", 40000, 16000000), fz("C05", "c05", 1000000, 8)],
         "assumptions": L1_ASSUME + ["a double panic is observed as the child process not exiting 0"],
     },
 }
